@@ -243,6 +243,35 @@ def handleXf (j : Json) : Except String Verdict := do
                    resetBad.map (fun f => "disagree:" ++ f),
            why := ",".intercalate fails }
 
+/-! ### growth in place -/
+
+/-- a constructed tensor after `getPayloadRef(point) <<= v` / `append`: nothing a tensor reports about
+    itself is touched by the mutators (model: Meta and reported shape stay what they were); the
+    specification still wants every stored coordinate inside the reported shape and range -/
+def handleMut (j : Json) : Except String Verdict := do
+  let impl ← field j "impl"
+  let src ← parseTObs (← field impl "src")
+  let resJ ← field impl "res"
+  let srcAuth := src.mt.shape.isSome
+  let tags0 := ["grow", if srcAuth then "src-auth" else "src-est", "nontrivial"]
+  if (optField resJ "err").isSome then
+    return { agree := false, spec := false, tags := tags0 ++ ["mut-error"], why := "error" }
+  let res ← parseTObs resJ
+  let metaFails := metaDiff true (mUpdate src.mt) res.mt
+  -- a rank that has recorded no estimate yet (all its fibers were empty: it reports 0) keeps
+  -- estimating from its fibers (`Rank.getShape`), every other entry stays what it was
+  let expectRep : List Sx := if srcAuth then src.rep else
+    (src.rep.zipIdx).map (fun q =>
+      if q.1 == Sx.n 0 then
+        let cs := (res.levels.getD q.2 []).map (fun f => estFiber (f.coords.filterMap sxInt?))
+        Sx.n (cs.foldl max 0)
+      else q.1)
+  let agree := metaFails.isEmpty && decide (res.rep = expectRep)
+  let bfails := if boundsB src.rep src.levels then boundsFailures res.rep res.levels else []
+  let fails := metaFails ++ bfails
+  pure { agree, spec := fails.isEmpty, model := metaJson (mUpdate src.mt),
+         tags := tags0 ++ fails.map (fun f => "fail:" ++ f), why := ",".intercalate fails }
+
 /-! ### constructors -/
 
 def intsToSx (l : List Int) : List Sx := l.map Sx.n
@@ -250,8 +279,10 @@ def intsToSx (l : List Int) : List Sx := l.map Sx.n
 def handleCtor (j : Json) : Except String Verdict := do
   let how ← fStr j "how"
   let d ← fNat j "d"
-  let ids ← (← fArr j "ids").mapM parseRId
-  let dflt := fIntD j "dflt" 0
+  let ids ← match optField j "ids" with
+    | some v => do (← asList v).mapM parseRId
+    | none => pure ((List.range d).map (fun i => RId.one s!"R{d - 1 - i}"))   -- `f"R{maxrank-i}"`
+  let dflt := match fInt j "dflt_code" with | .ok v => v | _ => fIntD j "dflt" 0
   let declIn ← match optField j "shape" with
     | some s => do pure (some (← asInts s))
     | none => pure none
@@ -296,7 +327,7 @@ def parseFAttr (j : Json) : Except String FAttr := do
 def parseLazyOp (j impl : Json) : Except String LazyOp := do
   match (← fStr j "name") with
   | "and" => pure .and | "or" => pure .or | "xor" => pure .xor | "sub" => pure .sub
-  | "prune" => pure .prune | "intersection" => pure .intersection | "union" => pure .union
+  | "prune" => pure .prune | "intersection" | "intersection-lf" => pure .intersection | "union" => pure .union
   | "populate" => pure .populate
   | "coiterActiveShape" => pure .coiterActiveShape
   | "coiterRangeShape" => do pure (.coiterRangeShape (← fInt j "lo") (← fInt j "hi"))
@@ -333,14 +364,35 @@ def handleLazy (j : Json) : Except String Verdict := do
   let model := lazyAttrs op a b
   let spec := lazySpec op a b
   let agree := decide (r = model) && isLazy
-  let aCoords ← asInts (← field (← field j "a") "c")
+  -- the coordinates the first operand presents (it may itself be a lazy fiber)
+  let aCoords ← match optField impl "a_coords" with
+    | some v => asInts v
+    | none => asInts (← field (← field j "a") "c")
   let aInside := aCoords.all (fun c => decide (a.lo ≤ c) && decide (c < a.hi))
   let coordsOk ← match optField resJ "coords" with
     | some cs => do
       let l ← asInts cs
       pure (l.all (fun c => decide (r.lo ≤ c) && decide (c < r.hi)))
     | none => pure false
+  -- the default of the result (model of today's code; the statement does not speak about it)
+  let dfltOk ← match optField resJ "dflt", optField impl "a_dflt", optField impl "b_dflt" with
+    | some dj, some daJ, some dbJ => do
+      let da ← daJ.getInt?
+      let db ← dbJ.getInt?
+      let got : Option LDflt := match dj with
+        | .num _ => (dj.getInt?).toOption.map LDflt.scalar
+        | .obj _ => match optField dj "t" with
+          | some (.arr a) => ((a.toList.drop 1).mapM (fun (x : Json) => (x.getInt?).toOption)).map LDflt.mask
+          | _ => none
+        | _ => none
+      pure (got == some (lazyDefault op da db 2))
+    | _, _, _ => pure true
+  -- iterating the lazy result must work, and a second iteration must deliver the same coordinates
+  let iterOk := (optField resJ "iter_err").isNone
+  let twiceOk := boolD resJ "twice_same" true
+  let agree := agree && dfltOk
   let fails :=
+    (if iterOk then [] else ["iter-error"]) ++ (if twiceOk then [] else ["second-iteration-differs"]) ++
     (if r.id = spec.id then [] else ["id"]) ++
     (if r.lo = spec.lo ∧ r.hi = spec.hi then [] else ["active"]) ++
     (if isLazy then [] else ["not-lazy"]) ++
@@ -457,6 +509,7 @@ end C14D
 def handleC14 (j : Json) : Except String Verdict := do
   match (← fStr j "kind") with
   | "xf" => C14D.handleXf j
+  | "mut" => C14D.handleMut j
   | "ctor" => C14D.handleCtor j
   | "lazy" => C14D.handleLazy j
   | "join" => C14D.handleJoin j
